@@ -184,3 +184,13 @@ pub mod bitbad {
         }
     }
 }
+
+// ---- PAN-7 controls: slicing a string at a character column vs at its own byte offset
+pub fn pan7_bad(text: &str, arrows: &str) -> String {
+    let indent = arrows.chars().take_while(|c| *c == ' ').count();
+    text[..indent].to_string()
+}
+pub fn pan7_good(text: &str) -> String {
+    let cut = text.find('>').unwrap_or(text.len());
+    text[..cut].to_string()
+}
